@@ -59,7 +59,18 @@ def run(R):
     R.describe('C11.R1', 'tonic-build: every client leaf generator and the server method generator build the path with format_method_path(service, method, emit_package); both service-name uses call format_service_name; the prost ServiceGenerator plumbs builder.emit_package to both the client and the server code generators')
     with R.guard('C11.R1'):
         gen.check_formatters(R, 'C11.R1')
+        gms = tb.body('tonic_build::client::generate_methods')
+        one_generator = not tb.find('tonic_build::client::generate_unary') and not [1 for bb_, t_ in gms.calls() if (t_.get('name') or '')[9:] in gen.KINDS and t_['name'].startswith('generate_')]
         for k in gen.KINDS:
+            if one_generator:
+                # the four leaves folded into one parametrised generator (spliced into generate_methods): one path, one service name
+                R.saw(gms)
+                c = gms.calls(name='format_method_path')
+                okc = len(c) == 1 and arg_root(strip_refs(gms.origin(c[0][1]['args'][0]))) == 1 and term_contains(gms.origin(c[0][1]['args'][1]), lambda x: is_call(x, name='next')) and strip_refs(gms.origin(c[0][1]['args'][2]))[0] == 'arg'
+                R.check(okc, 'C11.R1', 'client:%s:path-from-formatter' % k, site(gms), 'format_method_path(service, method, emit_package) in the one client method generator: %d site(s)' % len(c))
+                s2 = gms.calls(name='format_service_name')
+                R.check(okc and len(s2) == 1 and strip_refs(gms.origin(s2[0][1]['args'][1])) == strip_refs(gms.origin(c[0][1]['args'][2])) and arg_root(strip_refs(gms.origin(s2[0][1]['args'][0]))) == 1, 'C11.R1', 'client:%s:service-name-from-formatter' % k, site(gms), 'GrpcMethod service name from format_service_name(service, emit_package)')
+                continue
             b = tb.body('tonic_build::client::generate_' + k)
             R.saw(b)
             c = b.calls(name='format_method_path')
@@ -116,12 +127,22 @@ def run(R):
             b = tb.body(fn)
             R.saw(b)
             leaves = {bb: t['name'] for bb, t in b.calls() if (t.get('name') or '').startswith('generate_') and t['name'][9:] in gen.KINDS}
+            param_form = None
+            if not leaves:
+                # one generator parametrised by the kind: the entry-point identifier is made from a literal per kind
+                # (format_ident!("unary") ..) on the arm the two flags select, and interpolated into the one template
+                def ident_lit(t_):
+                    ks_ = [const_val(x) for x in find_terms(b.origin(t_['args'][0]), lambda x: x and x[0] == 'const' and isinstance(const_val(x), str))]
+                    return ks_[0] if len(ks_) == 1 and ks_[0] in gen.KINDS else None
+                leaves = {bb: 'generate_' + ident_lit(t) for bb, t in b.calls(name='mk_ident') if ident_lit(t)}
+                param_form = dict(leaves)
             rows = decision_rows(b, 0, set(leaves), relevant=lambda s: 'client_streaming' in s or 'server_streaming' in s)
             table = {}
             for cons, bb in rows:
                 cs = bool_guard(cons, lambda s: 'client_streaming' in s)
                 ss = bool_guard(cons, lambda s: 'server_streaming' in s)
-                table[(cs, ss)] = leaves[bb][9:]
+                table[(cs, ss)] = leaves[bb][9:] if (cs, ss) not in table or table[(cs, ss)] == leaves[bb][9:] else 'ambiguous'
+            client_param_form = (b, param_form) if param_form else None
             for k, v in KIND_TABLE.items():
                 R.eq(table.get(k), v, 'C11.R2', '%s:kind:%s' % (side, v), site(b), 'leaf generator for (client_streaming=%s, server_streaming=%s)' % k)
         sb = focus_body(tb, 'tonic_build::server::generate_methods', name='client_streaming')
@@ -141,6 +162,18 @@ def run(R):
         R.floor('C11.R2', 'server leaf generators', len(leaves), 4)
         # leaf templates name the runtime entry point of their own kind (identifier pushed into the quote! token stream)
         for side in ('client', 'server'):
+            if side == 'client' and client_param_form:
+                gb, sites_ = client_param_form
+                R.saw(gb)
+                made = {gb.term(bb_).get('t') for bb_ in sites_}
+                uses = [(bb_, t_) for bb_, t_ in gb.calls(name='to_tokens') if 'Ident' in str(t_.get('self_ty')) and
+                        {x[4].get('t') for x in find_terms(gb.origin(t_['args'][0]), lambda x: is_call(x, name='mk_ident'))} & made]
+                lits = [const_val(gb.origin(t_['args'][1])) for bb_, t_ in gb.calls(name='push_ident') if len(t_['args']) > 1]
+                for k in gen.KINDS:
+                    mine = {gb.term(bb_).get('t') for bb_, n_ in sites_.items() if n_ == 'generate_' + k}
+                    oku = len(uses) == 1 and bool(mine) and mine <= {x[4].get('t') for x in find_terms(gb.origin(uses[0][1]['args'][0]), lambda x: is_call(x, name='mk_ident'))} and not [l_ for l_ in lits if l_ in gen.KINDS]
+                    R.check(oku, 'C11.R2', 'client:template:%s:entry-point' % k, site(gb, uses[0][0]) if uses else site(gb), 'the identifier made for kind %s is the one interpolated as the runtime entry point of the client template (interpolation sites: %d); no entry point is spelled literally' % (k, len(uses)))
+                continue
             for k in gen.KINDS:
                 b = tb.body('tonic_build::%s::generate_%s' % (side, k))
                 R.saw(b)
